@@ -18,11 +18,18 @@ def generate_source_code(docstring, parsed):
         user_names.update(x.name for x in ancestor.body if getattr(x, 'name', None))
         ancestor = ancestor.extends
 
-    # Convert the parse tree into a list of parsing expressions.
-    nodes = parser.transform(
-        parsed.body,
-        lambda tree: _create_parsing_expression(tree, user_names),
-    )
+    # Convert the parse tree into a list of parsing expressions. (Within a rule
+    # or class, its parameters take precedence over the constructors, too.)
+    def create_with(names):
+        return lambda tree: _create_parsing_expression(tree, names)
+
+    nodes = [
+        parser.transform(
+            stmt,
+            create_with(user_names | set(getattr(stmt, 'params', None) or ())),
+        )
+        for stmt in parsed.body
+    ]
 
     out = _CodeBuilder()
     out.add_docstring(docstring)
